@@ -10,7 +10,7 @@
        (a root child before text/plain, or html, svg, xml, php, js, lua, perl, python) accepts (C08_detect)
    The tie to the Go scanner is the correspondence (json / jexh / jdeep channels); that generator-produced
    documents lie inside the grammar is checked against encoding/json.Valid by the harness. *)
-From Verif Require Import Base.Bytes Model.Types Model.Json Model.Detect Gen.TreeData Gen.Tables
+From Verif Require Import Base.Bytes Model.Types Model.Detectors Gen.FuncTerms Proofs.TranslateP Model.Json Model.Detect Gen.TreeData Gen.Tables
   Model.Tree Spec.SpecText Spec.JsonGrammar Spec.JsonGrammar8259 Proofs.TreeP Proofs.DetectP Proofs.JsonComplete Proofs.JsonOnline Proofs.JsonTrunc.
 
 Definition text_kids : list string :=
@@ -170,3 +170,8 @@ Proof.
   destruct (walk_head acc jt) as [p ->]. rewrite Hjid. eauto.
 Qed.
 Print Assumptions C08_detect.
+
+(* regenerated obligation: in the CURRENT source JSON is a single call of jsonHelper with no query, for objects and arrays *)
+Theorem C08_json_call_is_the_source : call_shapes_agree_for ["JSON"]%string = true.
+Proof. vm_compute. reflexivity. Qed.
+Print Assumptions C08_json_call_is_the_source.
